@@ -116,6 +116,7 @@ func TestC06(t *testing.T) {
 		func(i int, v interface{}, stack string) {
 			res.SetInconclusive(fmt.Sprintf("parent panic in batch %d: %v\n%s", i, v, stack))
 		})
+	p.flushSamples()
 }
 
 type parent struct {
@@ -126,7 +127,17 @@ type parent struct {
 	mu       sync.Mutex
 	crashes  int
 	distinct behav.Distinct
-	sampled  behav.Distinct
+	samples  map[string]interface{}
+}
+
+// flushSamples hands the collected samples to the result, most telling first.
+func (p *parent) flushSamples() {
+	for _, k := range []string{"roaring/rejected/true", "pql/rejected/false", "msg/rejected/false",
+		"roaring/accepted/true", "pql/accepted/false", "msg/accepted/false", "roaring/accepted/false"} {
+		if s, ok := p.samples[k]; ok {
+			p.res.AddSample(s)
+		}
+	}
 }
 
 func (p *parent) nextID() int {
@@ -329,10 +340,17 @@ func (p *parent) account(c *Case, v *Verdict, upTo []Case, replay bool) {
 	}
 	switch v.Symptom {
 	case "":
-		// one sample per (family, outcome class, corrupted or not)
-		if p.sampled.Add(fmt.Sprintf("%s/%s/%v", c.Fam, v.Class, len(c.Cors) > 0)) {
-			p.res.AddSample(map[string]interface{}{"case": c, "class": v.Class, "detail": trunc(v.Detail, 160)})
+		// one sample per (family, outcome class, corrupted or not), reported in a fixed
+		// order of preference at the end
+		k := fmt.Sprintf("%s/%s/%v", c.Fam, v.Class, len(c.Cors) > 0)
+		p.mu.Lock()
+		if p.samples == nil {
+			p.samples = map[string]interface{}{}
 		}
+		if _, ok := p.samples[k]; !ok {
+			p.samples[k] = map[string]interface{}{"case": c, "class": v.Class, "detail": trunc(v.Detail, 160)}
+		}
+		p.mu.Unlock()
 	case "harness":
 		p.res.SetInconclusive("harness error on " + behav.JSON(c) + ": " + v.Detail)
 	default:
